@@ -110,6 +110,7 @@ StrOf(v) == CASE v.t = "s" -> VStr(v.s)
               [] v.t = "i" -> VStr(IntText(v.n))
               [] v.t = "I" -> VStr(v.s)
               [] v.t = "b" -> VStr(IF v.n = 1 THEN <<116,114,117,101>> ELSE <<102,97,108,115,101>>)
+              [] v.t = "err" -> v                                  \* a failed evaluation stays a failure
               [] OTHER -> VUnspec
 
 \* an element of a numeric vector as an integer, when it is one
